@@ -108,6 +108,9 @@ ArgsFor(op) ==
                e \in {"0", "E1"}, s \in SetChoices, d \in {NoDels, Dels1("_t")}, db \in BOOLEAN,
                p \in BOOLEAN, b \in {"", "J1", "J3"}}
       [] op = "DeleteWithXattrs" -> {[A0 EXCEPT !.dels = d] : d \in DelChoices \cup {NoDels}}
+      [] op = "UpdateXattrDeleteBody" ->
+           {[A0 EXCEPT !.exp = e, !.casc = c, !.sets = s] : e \in {"0", "E1"}, c \in CasClasses,
+               s \in {Sets1("_s", XA("x1", FALSE, FALSE)), Sets1("u", XA("x2", FALSE, FALSE)), Sets1("_t", XA("x1", TRUE, TRUE))}}
       [] op = "SetWithMeta" ->
            {WithBody([A0 EXCEPT !.exp = e, !.casc = c, !.newc = nc, !.sets = s, !.json = (b = "J1")], b) :
                e \in {"0", "E1"}, c \in CasClasses, nc \in {"hi", "mid", "low"}, s \in PlainSets \cup {NoSets},
@@ -129,7 +132,7 @@ ArgsFor(op) ==
 AllOps == {"Set", "SetRaw", "Add", "AddRaw", "WriteCas", "Remove", "Delete", "Update", "Incr", "Touch",
            "GetAndTouchRaw", "SetXattrs", "UpdateXattrs", "RemoveXattrs", "DeleteSubDocPaths",
            "WriteWithXattrs", "WriteTombstoneWithXattrs", "WriteResurrectionWithXattrs",
-           "WriteUpdateWithXattrs", "DeleteWithXattrs", "SetWithMeta", "DeleteWithMeta", "WriteSubDoc",
+           "WriteUpdateWithXattrs", "DeleteWithXattrs", "UpdateXattrDeleteBody", "SetWithMeta", "DeleteWithMeta", "WriteSubDoc",
            "SubdocInsert", "GetSubDocRaw", "PurgeTombstones", "SwapDDoc"}
 
 ---------------------------------------------------------------------------
